@@ -18,6 +18,7 @@ use std::panic::{catch_unwind, AssertUnwindSafe};
 use tree_hash::{Hash256, TreeHash};
 use tree_hash_derive::TreeHash;
 use typenum::Unsigned;
+use std::ops::ControlFlow;
 use vec_map::VecMap;
 
 // ---------------------------------------------------------------------------------------------
@@ -133,6 +134,8 @@ pub struct Interp<'s, T: Kind, N: Unsigned, U: UpdateMap<T> + PartialEq> {
     colls: HashMap<usize, Handle<T, N, U>>,
     trees: HashMap<usize, Arc<Tree<T>>>,
     builders: HashMap<usize, Builder<T>>,
+    /// update maps used directly through the public `UpdateMap` trait (`m…` operations)
+    maps: HashMap<usize, U>,
     /// slots of the spawning interpreter, visible read-only inside a `conc` block
     shared: Option<&'s HashMap<usize, Handle<T, N, U>>>,
     /// bytes produced by the last `ssz`, values produced by the last `ser`, result of the last
@@ -301,6 +304,7 @@ impl<'s, T: Kind, N: Unsigned + Send + Sync, U: UpdateMap<T> + PartialEq + Send 
             colls: HashMap::new(),
             trees: HashMap::new(),
             builders: HashMap::new(),
+            maps: HashMap::new(),
             shared: None,
             last_ssz: vec![],
             last_ser: vec![],
@@ -540,6 +544,78 @@ impl<'s, T: Kind, N: Unsigned + Send + Sync, U: UpdateMap<T> + PartialEq + Send 
                         m.insert(k.parse().ok()?, val::<T>(v)?);
                     }
                 }
+                match self.colls.get_mut(&n(1)?)? {
+                    Handle::L(l) => res_unit(l.bulk_update(m)),
+                    Handle::V(_) => return None,
+                }
+            }
+            // ---- the update maps through the public `UpdateMap` trait ----
+            "mnew" => {
+                self.maps.insert(n(1)?, U::default());
+                "ok".to_string()
+            }
+            "mcap" => {
+                self.maps.insert(n(1)?, presized::<T, U>(n(2)?));
+                "ok".to_string()
+            }
+            "mclone" => {
+                let m = self.maps.get(&n(1)?)?.clone();
+                self.maps.insert(n(2)?, m);
+                "ok".to_string()
+            }
+            "mins" => {
+                let v = val::<T>(w.get(3)?)?;
+                let old = self.maps.get_mut(&n(1)?)?.insert(n(2)?, v);
+                format!("ok {}", opt_str(old.as_ref()))
+            }
+            "mget" => opt_str(self.maps.get(&n(1)?)?.get(n(2)?)),
+            "mgm" => {
+                // get_mut_with(k, |_| f) and, when it yields a slot, `*slot = x`
+                let f: Option<T> = match *w.get(3)? {
+                    "none" => None,
+                    h => Some(val::<T>(h)?),
+                };
+                let x = val::<T>(w.get(4)?)?;
+                match self.maps.get_mut(&n(1)?)?.get_mut_with(n(2)?, |_| f) {
+                    Some(slot) => {
+                        let old = slot.clone();
+                        *slot = x;
+                        format!("ok {}", vhex(&old))
+                    }
+                    None => "none".to_string(),
+                }
+            }
+            "mlen" => format!("ok {}", self.maps.get(&n(1)?)?.len()),
+            "misempty" => format!("ok {}", self.maps.get(&n(1)?)?.is_empty()),
+            "mmax" => match self.maps.get(&n(1)?)?.max_index() {
+                Some(k) => format!("some {k}"),
+                None => "none".to_string(),
+            },
+            "mrange" => {
+                // `mrange m s e [brk|err j]`: visit [s, e); optionally break / fail at the j-th entry
+                let (mode, j) = match w.get(4) {
+                    Some(md) => (*md, n(5)?),
+                    None => ("all", usize::MAX),
+                };
+                let mut seen = 0usize;
+                let mut out = String::new();
+                let r: Result<(), ()> = self.maps.get(&n(1)?)?.for_each_range(n(2)?, n(3)?, |k, v| {
+                    seen += 1;
+                    write!(out, " {k}:{}", vhex(v)).unwrap();
+                    if seen == j {
+                        match mode {
+                            "brk" => return ControlFlow::Break(()),
+                            "err" => return ControlFlow::Continue(Err(())),
+                            _ => {}
+                        }
+                    }
+                    ControlFlow::Continue(Ok(()))
+                });
+                format!("{}{}", if r.is_ok() { "ok" } else { "err" }, out)
+            }
+            "meq" => format!("ok {}", self.maps.get(&n(1)?)? == self.maps.get(&n(2)?)?),
+            "mbulk" => {
+                let m = self.maps.get(&n(2)?)?.clone();
                 match self.colls.get_mut(&n(1)?)? {
                     Handle::L(l) => res_unit(l.bulk_update(m)),
                     Handle::V(_) => return None,
@@ -1012,6 +1088,7 @@ impl<'s, T: Kind, N: Unsigned + Send + Sync, U: UpdateMap<T> + PartialEq + Send 
                         colls: HashMap::new(),
                         trees: HashMap::new(),
                         builders: HashMap::new(),
+                        maps: HashMap::new(),
                         shared: Some(shared),
                         last_ssz: vec![],
                         last_ser: vec![],
